@@ -129,7 +129,8 @@ pub fn name_hist(r: &mut crate::rng::Rng) -> Hist {
     let ty = r.pick(&["pypi", "nuget", "pypi", "nuget", "maven", "npm", "golang", "cargo", "gem"]).to_string();
     let mut name = String::new();
     for _ in 0..r.range(1, 8) {
-        name.push(*r.pick(&['a', 'A', '1', '-', '_', '.', 'Æ', 'ǅ', 'İ', 'ᾈ', 'Σ', 'ß', 'é']));
+        // incl. letters whose lower-case form has another UTF-8 length (İ, Kelvin sign, Ⱥ, ẞ) and Σ (final-sigma contexts)
+        name.push(*r.pick(&['a', 'A', '1', '-', '_', '.', 'Æ', 'ǅ', 'İ', 'ᾈ', 'Σ', 'ß', 'é', '\u{212A}', 'Ⱥ', 'ẞ', 'Α', 'σ']));
     }
     let mut calls = vec![];
     if ty == "maven" || r.chance(1, 3) {
